@@ -227,7 +227,11 @@ def job_format(ctx, mode, rep, fmt, ranges=None):
 
 
 DECIMAL_TODS = [(6.5, None, None), (23.999, None, None), (0.000001, None, None), (12, 30.25, None), (23, 59.5, None),
-                (0, 0.000001, None), (7, 8, 9.5), (23, 59, 59.999999), (0, 0, 0.25), (12, 0, 30.123456)]
+                (0, 0.000001, None), (7, 8, 9.5), (23, 59, 59.999999), (0, 0, 0.25), (12, 0, 30.123456),
+                # around the dumper's six-digit rounding / truncation thresholds
+                (7, 8, 9.999994), (7, 8, 9.999995), (7, 8, 9.999996), (7, 8, 9.999997), (7, 8, 9.999998),
+                (7, 8.999996, None), (6.999997, None, None), (1, 2, 3.000001), (1, 2, 3.0000005), (1, 2.000004, None),
+                (23, 59, 59.000005), (0, 0, 0.999998)]
 
 
 # ---------------------------------------------------------------------------
